@@ -139,7 +139,7 @@ func (j *Join) StraightJoin() ([]any, error) {
 	if err != nil {
 		return nil, err
 	}
-	if !j.joinType.IsParallel() {
+	if !j.joinType.IsParallel() || !isParallelSafe(j.joinExpr) {
 		return j.JoinFunc(l, r)
 	}
 	return j.ParallelJoinFunc(l, r)
@@ -159,10 +159,30 @@ func (j *Join) Join() ([]any, error) {
 	if err != nil {
 		return nil, err
 	}
-	if !j.joinType.IsParallel() {
+	if !j.joinType.IsParallel() || !isParallelSafe(j.joinExpr) {
 		return j.JoinFunc(l, r)
 	}
 	return j.ParallelJoinFunc(l, r)
+}
+
+// An ON expression made of column comparisons only does not touch the state of
+// the query (the memo of ONCE/GLOBAL/aggregate calls, the post-processors, the
+// wait group): only such an expression is evaluated from several goroutines
+func isParallelSafe(expr sqlparser.Expr) bool {
+	switch e := expr.(type) {
+	case *sqlparser.ComparisonExpr:
+		_, left := e.Left.(*sqlparser.ColName)
+		_, right := e.Right.(*sqlparser.ColName)
+		return left && right
+	case *sqlparser.AndExpr:
+		return isParallelSafe(e.Left) && isParallelSafe(e.Right)
+	case *sqlparser.OrExpr:
+		return isParallelSafe(e.Left) && isParallelSafe(e.Right)
+	case sqlparser.BoolVal:
+		return true
+	default:
+		return false
+	}
 }
 
 func (j *Join) HashJoin() ([]any, error) {
